@@ -567,4 +567,71 @@ theorem chord_length (r a φ : ℝ) (hr : 0 ≤ r) (h0 : 0 ≤ φ) (h1 : φ ≤ 
   have : 0 ≤ Real.sin (φ / 2) := Real.sin_nonneg_of_nonneg_of_le_pi (by linarith) (by linarith)
   positivity
 
+/-! ## the y-faces at the ends of a region (`hyYlowFirst`, `hyYlowLast`, `hyYlowAll`) -/
+
+theorem hyYlowFirst_some (d db : List ℝ) :
+    hyYlowFirst d (some db) =
+      (d.getD 1 0 - d.getD 0 0) + (db.getD (db.length - 1) 0 - db.getD (db.length - 2) 0) := by
+  rfl
+
+theorem hyYlowFirst_none (d : List ℝ) : hyYlowFirst d none = 2 * (d.getD 1 0 - d.getD 0 0) := by
+  rfl
+
+theorem hyYlowLast_some (d da : List ℝ) :
+    hyYlowLast d (some da) =
+      (d.getD (d.length - 1) 0 - d.getD (d.length - 2) 0) + (da.getD 1 0 - da.getD 0 0) := by
+  rfl
+
+theorem hyYlowLast_none (d : List ℝ) :
+    hyYlowLast d none = 2 * (d.getD (d.length - 1) 0 - d.getD (d.length - 2) 0) := by
+  rfl
+
+theorem hyYlowAll_eq (d : List ℝ) (below above : Option (List ℝ)) :
+    hyYlowAll d below above = (hyYlowFirst d below :: hyYlowInner d) ++ [hyYlowLast d above] := by
+  rfl
+
+/-- the seeded regression: the half cell of the region below taken from its wrong (lower) end,
+    `dbelow[1] - dbelow[0]` instead of `dbelow[-1] - dbelow[-2]` -/
+def hyYlowFirstWrongEnd (d db : List ℝ) : ℝ := (d.getD 1 0 - d.getD 0 0) + (db.getD 1 0 - db.getD 0 0)
+
+/-- the differences `hyCentre` takes telescope for every length: to the last even index -/
+theorem hyCentre_sum_getD : ∀ d : List ℝ,
+    (hyCentre d).sum = d.getD (2 * ((d.length - 1) / 2)) 0 - d.getD 0 0
+  | [] => by simp [hyCentre_nil]
+  | [a] => by simp [hyCentre_one]
+  | [a, b] => by simp [hyCentre_two]
+  | a :: b :: c :: rest => by
+    have ih := hyCentre_sum_getD (c :: rest)
+    have e : 2 * (((a :: b :: c :: rest).length - 1) / 2) = 2 * (((c :: rest).length - 1) / 2) + 1 + 1 := by
+      simp only [List.length_cons]; omega
+    rw [hyCentre_cons3, List.sum_cons, ih, e, List.getD_cons_succ, List.getD_cons_succ, List.getD_cons_zero,
+      List.getD_cons_zero]
+    ring
+
+/-- the interior y-faces telescope from the first cell centre to the last one -/
+theorem hyYlowInner_sum (d : List ℝ) (ny : ℕ) (hd : d.length = 2 * ny + 1) (hny : 1 ≤ ny) :
+    (hyYlowInner d).sum = d.getD (2 * ny - 1) 0 - d.getD 1 0 := by
+  obtain ⟨m, rfl⟩ : ∃ m, ny = m + 1 := ⟨ny - 1, by omega⟩
+  cases d with
+  | nil => simp at hd
+  | cons a t =>
+    have ht : t.length = 2 * m + 2 := by simp only [List.length_cons] at hd; omega
+    have e1 : 2 * ((t.length - 1) / 2) = 2 * m := by rw [ht]; omega
+    have e2 : 2 * (m + 1) - 1 = 2 * m + 1 := by omega
+    rw [hyYlowInner_cons, hyCentre_sum_getD, e1, e2, List.getD_cons_succ, List.getD_cons_succ]
+
+/-- the first `ny` of the `ny + 1` y-face values: the lower end face and the interior faces -/
+theorem hyYlowAll_take (d : List ℝ) (below above : Option (List ℝ)) (ny : ℕ) (hd : d.length = 2 * ny + 1)
+    (hny : 1 ≤ ny) :
+    (hyYlowAll d below above).take ny = hyYlowFirst d below :: hyYlowInner d := by
+  rw [hyYlowAll_eq]
+  apply List.take_left'
+  rw [List.length_cons, hyYlowInner_length_odd d ny hd]
+  omega
+
+theorem hyYlowAll_take_sum (d : List ℝ) (below above : Option (List ℝ)) (ny : ℕ) (hd : d.length = 2 * ny + 1)
+    (hny : 1 ≤ ny) :
+    ((hyYlowAll d below above).take ny).sum = hyYlowFirst d below + (d.getD (2 * ny - 1) 0 - d.getD 1 0) := by
+  rw [hyYlowAll_take d below above ny hd hny, List.sum_cons, hyYlowInner_sum d ny hd hny]
+
 end DistanceLemmas
